@@ -151,8 +151,21 @@ func verifC22GenFrame(t *rapid.T, ft frame.FrameType, version uint8) frame.Frame
 			ChannelID: verifC22Str(t, "channelID"), ChannelType: rapid.Byte().Draw(t, "channelType"), Topic: verifC22Str(t, "topic"),
 			Payload: verifC22Payload(t, PayloadMaxSize, "payload")}
 	case frame.SENDACK:
-		return &frame.SendackPacket{Framer: fr, MessageID: verifC22I64(t, "messageID"), MessageSeq: verifC22MessageSeq(t, version, "messageSeq"),
+		p := &frame.SendackPacket{Framer: fr, MessageID: verifC22I64(t, "messageID"), MessageSeq: verifC22MessageSeq(t, version, "messageSeq"),
 			ClientSeq: uint64(verifC22U32(t, "clientSeq")), ClientMsgNo: verifC22Str(t, "clientMsgNo"), ReasonCode: frame.ReasonCode(rapid.Byte().Draw(t, "reason"))}
+		if p.ClientMsgNo != "" && rapid.IntRange(0, 2).Draw(t, "sendackConfusable") == 0 {
+			// the leading two bytes of the message sequence read as the length
+			// of ClientMsgNo: the body also parses in the legacy
+			// "ClientMsgNo first" layout the decoder still accepts
+			n := uint64(len(p.ClientMsgNo))
+			low := uint64(rapid.Uint16().Draw(t, "sendackSeqLow"))
+			if version <= frame.LegacyMessageSeqVersion {
+				p.MessageSeq = n<<16 | low
+			} else {
+				p.MessageSeq = n<<48 | low
+			}
+		}
+		return p
 	case frame.RECV:
 		return &frame.RecvPacket{Framer: fr, Setting: verifC22Setting(t, "setting"), MsgKey: verifC22Str(t, "msgKey"), Expire: verifC22U32(t, "expire"),
 			MessageID: verifC22I64(t, "messageID"), MessageSeq: verifC22MessageSeq(t, version, "messageSeq"), ClientMsgNo: verifC22Str(t, "clientMsgNo"),
